@@ -187,3 +187,50 @@ fn c17_ends_exact() {
     assert!(step(t, &-1.0f32, &2.0f32, |_| 0.0) == if t <= 0.0 { -1.0 } else { 2.0 });
     kani::cover!(ti == 3 && p[0] == 0.1 && p[3] == 0.9, "t = 1 on a non-dyadic polygon");
 }
+
+/// Z4: polyline approximation.  Curve with control points [0,0,1,3], i.e.
+/// x(t) = 3 t^2 (exact in f32 on dyadic t), so the flatness error handed to
+/// `halt` for the piece [a,b] is exactly -3 (b-a)^2 / 4 and *encodes the
+/// recursion depth*.  `halt` answers true at depth D and arbitrarily
+/// (kani::any) above it, so the solver ranges over every subdivision tree of
+/// depth <= D: approximate() terminates, starts at p0 and ends at p_end
+/// exactly, yields curve points 3 a_i^2 at strictly increasing dyadic
+/// parameters a_i = k_i / 2^D, and every gap is a power of two that is
+/// aligned to its own size (a piece of the bisection tree).
+// (depth 3 exhausts memory in CBMC: > 40 GB)
+const ZD: u32 = 2;
+#[kani::proof]
+#[kani::unwind(12)]
+fn c17_approximate_trees() {
+    let sp = BezierSpline::new(&[0.0f32, 0.0, 1.0, 3.0][..]);
+    let leaf_err = -3.0 / 4.0 / (1u32 << (2 * ZD)) as f32; // error of a piece of width 2^-ZD
+    let pts = sp.approximate(|e: &f32| if *e >= leaf_err { true } else { kani::any() });
+    let n = pts.len();
+    assert!(n >= 2 && n <= (1usize << ZD) + 1);
+    assert!(pts[0] == 0.0 && pts[n - 1] == 3.0);
+    let scale = (1u32 << ZD) as f32;
+    let mut prev_k: i32 = -1;
+    let mut i = 0;
+    while i < n {
+        // pts[i] == 3 (k / 2^ZD)^2 for an integer k > prev_k
+        let mut k = prev_k + 1;
+        let mut found = false;
+        while k <= (1i32 << ZD) {
+            let a = k as f32 / scale;
+            if 3.0 * a * a == pts[i] { found = true; break; }
+            k += 1;
+        }
+        assert!(found);
+        if prev_k >= 0 {
+            let gap = k - prev_k;
+            assert!(gap & (gap - 1) == 0); // power of two
+            assert!(prev_k % gap == 0);    // aligned: a node of the bisection tree
+        }
+        prev_k = k;
+        i += 1;
+    }
+    assert!(prev_k == 1 << ZD);
+    kani::cover!(n == 3, "one split only");
+    kani::cover!(n == (1usize << ZD) + 1, "fully subdivided");
+    kani::cover!(n == 4, "unbalanced tree");
+}
